@@ -71,6 +71,8 @@ def build(run):
 
 
 def run(run, replay=None):
+    from units.C28 import cex as _cex
+    run.fallbacks.append(("pos_to_byte_index", lambda: _cex.find(run, {})))
     unit = build(run)
     h = 'h_pos_to_byte_index'
     res = unit.run([h], jobs=1, timeout_s=1500 if run.tier != 'thorough' else 6000)
